@@ -273,6 +273,17 @@ type blockingCall struct {
 	ctx      context.Context
 	cancel   context.CancelFunc
 	canceled bool
+	op       *HOp // the recorded operation made with this context
+}
+
+// blockedAfterCancel (C07, model-based families): an operation whose own
+// context has ended must not be pending at quiescence.
+func blockedAfterCancel(w *W, typ string, calls []*blockingCall) {
+	for _, b := range calls {
+		if b.canceled && b.op != nil && b.op.Pending {
+			w.Violate("blocked-after-cancel", fmt.Sprintf("blocked-after-cancel:%s:model:%v", typ, b.op.In), "at quiescence %v is still blocked although its context was cancelled", b.op.In)
+		}
+	}
 }
 
 func c05Run(w *W) { c05RunMode(w, false) }
@@ -310,10 +321,18 @@ func c05RunMode(w *W, liveness bool) {
 	var calls []*blockingCall
 	mk := func() *blockingCall {
 		b := &blockingCall{}
-		if simrt.Choose(5) == 0 {
+		switch simrt.Choose(10) {
+		case 0, 1:
 			// an uncancellable caller: only the operation it waits for (or
 			// Close) can release it
 			b.ctx, b.cancel = context.Background(), func() {}
+			return b
+		case 2:
+			// a caller whose context has already ended when it calls
+			b.ctx, b.cancel = context.WithCancel(w.Ctx)
+			b.cancel()
+			b.canceled = true
+			calls = append(calls, b)
 			return b
 		}
 		b.ctx, b.cancel = context.WithCancel(w.Ctx)
@@ -342,6 +361,7 @@ func c05RunMode(w *W, liveness bool) {
 				b := mk()
 				seq = append(seq, func() {
 					op := h.Invoke(client, qIn{"BlockingAdd", v})
+					b.op = op
 					err := q.BlockingAdd(b.ctx, v)
 					h.Return(op, qOut{Err: errClass(err)})
 				})
@@ -355,6 +375,7 @@ func c05RunMode(w *W, liveness bool) {
 				b := mk()
 				seq = append(seq, func() {
 					op := h.Invoke(client, qIn{"Wait", 0})
+					b.op = op
 					r, err := q.Wait(b.ctx)
 					h.Return(op, qOut{V: r, Err: errClass(err)})
 				})
@@ -365,16 +386,33 @@ func c05RunMode(w *W, liveness bool) {
 					h.Return(op, qOut{V: n})
 				})
 			case 7:
+				form := simrt.Choose(2)
 				seq = append(seq, func() {
 					op := h.Invoke(client, qIn{"Send", v})
-					err := d.Send(w.Ctx, v)
+					var err error
+					if form == 0 {
+						err = d.Send(w.Ctx, v)
+					} else {
+						err = d.Processor()(w.Ctx, v)
+					}
 					h.Return(op, qOut{Err: errClass(err)})
 				})
 			case 8:
 				b := mk()
+				form := simrt.Choose(3)
 				seq = append(seq, func() {
 					op := h.Invoke(client, qIn{"Receive", 0})
-					r, err := d.Receive(b.ctx)
+					b.op = op
+					var r int
+					var err error
+					switch form {
+					case 0:
+						r, err = d.Receive(b.ctx)
+					case 1:
+						r, err = d.Producer()(b.ctx)
+					default:
+						r, err = d.Iterator().ReadOne(b.ctx)
+					}
 					h.Return(op, qOut{V: r, Err: errClass(err)})
 				})
 			case 9:
@@ -427,6 +465,7 @@ func c05RunMode(w *W, liveness bool) {
 	}
 	simrt.Quiesce()
 	if liveness {
+		blockedAfterCancel(w, "Queue", calls)
 		if n := h.ObserveBlocked(func(op string) any { return qIn{Op: op} }, func(in any) string { return in.(qIn).Op }); n > 0 {
 			w.Probe("blocked-at-quiescence")
 		}
